@@ -88,7 +88,7 @@ let run_op w line =
      | None -> pr "r nolist\n"; dump w d; w
      | Some st ->
        (match sort st.hs_hr with
-        | Ok h -> pr "r"; List.iter (fun t -> pr " "; pr (hex_of_text t)) (expand h); pr "\n"; dump w d; w
+        | Ok h -> pr "r"; List.iter (fun t -> pr " "; pr (hex_of_text t)) (match iterate h with Ok l -> l | _ -> []); pr "\n"; dump w d; w
         | bad -> raise (Stop (outcome_line (match bad with Ok _ -> Abort O | Exit (c, s) -> Exit (c, s) | Abort s -> Abort s | MemErr s -> MemErr s | Hang s -> Hang s)))))
   | Some o ->
     (match step w o with
